@@ -68,6 +68,10 @@ class Builder:
         if t == '*':
             return self.ev(e[1]) * self.ev(e[2])
         if t == '@':
+            h = self.hooks.get('matmul_left')
+            if h is not None and e[1][0] == 'c':
+                # the constant left operand of a matrix product may be handed over in another container (scipy sparse)
+                return h(const(e[1][1])) @ self.ev(e[2])
             return self.ev(e[1]) @ self.ev(e[2])
         if t == 'sum':
             return self.ev(e[1]).sum()
